@@ -48,10 +48,12 @@ const (
 	evRemProg
 	evObserve // concurrent part only: take a Processes() snapshot
 	evEndOld  // late EndQuery of a statement that was superseded by a newer BeginQuery on its connection
+	evAddPart // AddPartitionProgress(t, p0, 5)
+	evUpdPart // UpdatePartitionProgress(t, p0, 1)
 	nEvKinds
 )
 
-var evNames = [...]string{"AddConnection", "ConnectionReady", "BeginQuery", "EndQuery", "BeginOperation", "EndOperation", "Kill", "RemoveConnection", "AddTableProgress", "UpdateTableProgress", "RemoveTableProgress", "Processes", "EndQuery(superseded)"}
+var evNames = [...]string{"AddConnection", "ConnectionReady", "BeginQuery", "EndQuery", "BeginOperation", "EndOperation", "Kill", "RemoveConnection", "AddTableProgress", "UpdateTableProgress", "RemoveTableProgress", "Processes", "EndQuery(superseded)", "AddPartitionProgress", "UpdatePartitionProgress"}
 
 type event struct {
 	Kind evKind `json:"kind"`
@@ -170,7 +172,7 @@ func (m *model) enabled(e event) bool {
 		return true
 	case evRemove:
 		return m.st[c] >= stConnecting && m.st[c] <= stInOp
-	case evAddProg, evUpdProg, evRemProg:
+	case evAddProg, evUpdProg, evRemProg, evAddPart, evUpdPart:
 		return m.st[c] == stRunning
 	}
 	return false
@@ -233,21 +235,31 @@ func (m *model) apply(e event) {
 		m.st[c] = stRemoved
 		m.cur[c] = -1
 		m.prog[c] = nil
-	case evAddProg: // AddTableProgress(t,10) + AddPartitionProgress(t,p0,5)
+	case evAddProg:
 		p := m.prog[c]["t"]
 		p[1] = 10
 		m.prog[c]["t"] = p
-		q := m.prog[c]["t/p0"]
-		q[1] = 5
-		m.prog[c]["t/p0"] = q
-	case evUpdProg: // UpdateTableProgress(t,1) + UpdatePartitionProgress(t,p0,1)
-		for _, k := range []string{"t", "t/p0"} {
-			p, ok := m.prog[c][k]
+	case evUpdProg:
+		p, ok := m.prog[c]["t"]
+		if !ok {
+			p = [2]int64{0, -1}
+		}
+		p[0]++
+		m.prog[c]["t"] = p
+	case evAddPart: // no-op unless the table progress exists
+		if _, ok := m.prog[c]["t"]; ok {
+			q := m.prog[c]["t/p0"]
+			q[1] = 5
+			m.prog[c]["t/p0"] = q
+		}
+	case evUpdPart:
+		if _, ok := m.prog[c]["t"]; ok {
+			q, ok := m.prog[c]["t/p0"]
 			if !ok {
-				p = [2]int64{0, -1}
+				q = [2]int64{0, -1}
 			}
-			p[0]++
-			m.prog[c][k] = p
+			q[0]++
+			m.prog[c]["t/p0"] = q
 		}
 	case evRemProg:
 		delete(m.prog[c], "t")
@@ -379,14 +391,16 @@ func (s *sys) apply(e event, endIdx int) (newIdx int, err error) {
 		s.pl.Kill(c)
 	case evRemove:
 		s.pl.RemoveConnection(c)
-	case evAddProg, evUpdProg, evRemProg:
+	case evAddProg, evUpdProg, evRemProg, evAddPart, evUpdPart:
 		pid := s.ctxs[endIdx].Pid()
 		switch e.Kind {
 		case evAddProg:
 			s.pl.AddTableProgress(pid, "t", 10)
-			s.pl.AddPartitionProgress(pid, "t", "p0", 5)
 		case evUpdProg:
 			s.pl.UpdateTableProgress(pid, "t", 1)
+		case evAddPart:
+			s.pl.AddPartitionProgress(pid, "t", "p0", 5)
+		case evUpdPart:
 			s.pl.UpdatePartitionProgress(pid, "t", "p0", 1)
 		default:
 			s.pl.RemoveTableProgress(pid, "t")
@@ -491,7 +505,7 @@ func seqAlphabet(nconn int) []event {
 		for k := evAdd; k <= evRemProg; k++ {
 			a = append(a, event{k, c})
 		}
-		a = append(a, event{evEndOld, c})
+		a = append(a, event{evEndOld, c}, event{evAddPart, c}, event{evUpdPart, c})
 	}
 	return a
 }
@@ -521,7 +535,7 @@ func seqStep(r *core.Run, alpha []event) func(h []int) (string, bool) {
 				endIdx = m.supersededOpen(e.Conn)
 			case evEndOp:
 				endIdx = m.outstanding(e.Conn, false)
-			case evAddProg, evUpdProg, evRemProg:
+			case evAddProg, evUpdProg, evRemProg, evAddPart, evUpdPart:
 				endIdx = m.cur[e.Conn]
 			}
 			_, err := s.apply(e, endIdx)
@@ -585,7 +599,7 @@ func lifecycles(conn int) [][]event {
 		mk(evAdd, evReady, evBeginQuery, evEndQuery, evRemove),
 		mk(evAdd, evReady, evBeginQuery, evRemove, evEndQuery),
 		mk(evAdd, evReady, evBeginOp, evEndOp, evBeginQuery, evEndQuery),
-		mk(evAdd, evReady, evBeginQuery, evAddProg, evUpdProg, evEndQuery),
+		mk(evAdd, evReady, evBeginQuery, evAddProg, evAddPart, evUpdPart, evEndQuery),
 		mk(evAdd, evReady, evBeginQuery, evEndQuery, evBeginQuery, evEndQuery),
 		mk(evAdd, evReady, evBeginQuery, evBeginQuery, evEndOld, evEndQuery, evRemove),
 	}
@@ -654,7 +668,7 @@ func runScenario(sc scenario, choose func(i int, cands []int, runningIn bool) in
 				case evEndOp:
 					endIdx = myOp[0]
 					myOp = myOp[1:]
-				case evAddProg, evUpdProg, evRemProg:
+				case evAddProg, evUpdProg, evRemProg, evAddPart, evUpdPart:
 					endIdx = myQuery[len(myQuery)-1]
 				}
 				idx, err := s.apply(e, endIdx)
